@@ -35,6 +35,9 @@ const (
 	fitTiny = 100
 	// fitZeroSpecies (C09 / C10): every organism of every third species has fitness zero, the others uniform values
 	fitZeroSpecies = 101
+	// fitOldGuard (C10): the organisms of old species hold the highest, never improving fitness (those species stagnate and
+	// are "dying" while they still rank first), the younger species score lower but improve with every generation
+	fitOldGuard = 102
 )
 
 var fitNames = []string{"all-zero", "constant", "uniform", "log-normal", "one-dominant", "stagnating", "distinct-positive", "huge (sum overflows)"}
@@ -71,6 +74,9 @@ func fitName(shape int) string {
 	}
 	if shape == fitZeroSpecies {
 		return "whole species at zero"
+	}
+	if shape == fitOldGuard {
+		return "old species lead but stagnate, young ones improve"
 	}
 	return fitNames[shape]
 }
@@ -174,6 +180,12 @@ func assignFitness(r *rand.Rand, shape, gen int, pop *genetics.Population) {
 			}
 		case fitDistinct:
 			org.Fitness = math.Exp(r.NormFloat64()*2) + float64(i+1)*1e-7
+		case fitOldGuard:
+			if org.Species != nil && org.Species.Age > 5 {
+				org.Fitness = 10 + float64(i+1)*1e-7
+			} else {
+				org.Fitness = 3 + 0.05*float64(gen) + float64(i+1)*1e-7
+			}
 		case fitZeroSpecies:
 			org.Fitness = r.Float64() * 7
 			if org.Species != nil && org.Species.Id%3 == gen%3 {
